@@ -34,6 +34,7 @@ type HarnessSpec struct {
 	Replay     string         `json:"replay"`   // "native" (default) | "engine"
 	Watchdog   string         `json:"watchdog"` // native replay watchdog
 	NoTermIs   string         `json:"budget_is"` // "violation": a budget-exhausted path is a non-termination suspect
+	DeadlockIs string         `json:"deadlock_is"`
 	Skip       string         `json:"skip_tier"`
 	Covers     []string       `json:"covers"` // labels that must be witnessed
 	Describe   string         `json:"describe"`
@@ -401,7 +402,8 @@ func cmdCheck(args []string) int {
 			}
 			cfg := &engine.Config{Property: spec.Property, Tier: *tier, MaxSteps: get("max_steps", 400000), Preempt: get("preempt", 2),
 				Bounds: bounds, ConcretizeMax: get("concretize_max", 64), KnownListed: knownListed,
-				QueryTimeout: get("query_timeout_ms", 20000), LoopFuel: get("loop_fuel", 2000), RepoModule: repoModule, Trace: *trace}
+				QueryTimeout: get("query_timeout_ms", 20000), LoopFuel: get("loop_fuel", 2000), RepoModule: repoModule, Trace: *trace,
+				BudgetIsViolation: h.NoTermIs == "violation", DeadlockIsViolation: h.DeadlockIs == "violation"}
 			fn := spkg.Func(h.Name)
 			if fn == nil {
 				fatalf("harness %s not found in %s", h.Name, u.Dir)
@@ -532,7 +534,7 @@ func cmdCheck(args []string) int {
 					confirmed, how = true, "native panic: "+rr.Panic
 				case rr.Failed == p.tape.Label:
 					confirmed, how = true, "native assertion "+rr.Failed
-				case p.tape.Label == "nontermination" && rr.Timeout:
+				case (p.tape.Label == "nontermination" || p.tape.Label == "deadlock") && rr.Timeout:
 					confirmed, how = true, "native watchdog timeout"
 				}
 			}
